@@ -109,7 +109,7 @@ def _split_lines(region_str):
     for line in region_str.split('\n'):
         line = line.strip()
         if (line.startswith('#')
-                and not line.startswith(('# text(', '# composite('))):
+                and not line.lower().startswith(('# text(', '# composite('))):
             # a comment extends to the end of the line, including any
             # semicolons
             lines.append(line)
@@ -164,7 +164,7 @@ def _parse_raw_data(region_str):
 
         # skip comments
         if (line.startswith('#')
-                and not line.startswith(('# text(', '# composite('))):
+                and not line.lower().startswith(('# text(', '# composite('))):
             continue
 
         original_line = line  # used to parse text and tag fields (keep case)
@@ -194,6 +194,9 @@ def _parse_raw_data(region_str):
                           AstropyUserWarning)
             if frame_or_shape in unsupported_frames:
                 frame = None
+            elif composite_meta and not _continues_composite(original_line):
+                # a skipped shape can be the last member of a composite
+                composite_meta = {}
             continue
 
         if frame_or_shape in supported_frames:
@@ -217,7 +220,9 @@ def _parse_raw_data(region_str):
                                      f'shape: "{line}"')
                 # composite metadata applies to all regions within the
                 # composite shape
-                composite_meta = _parse_metadata(line[idx + 2:].strip())
+                # (the original line: text and tag values keep their case)
+                composite_meta = _parse_metadata(
+                    original_line[idx + 2:].strip())
                 # remove "composite=1" since we split the composite
                 composite_meta.pop('composite', None)
 
@@ -243,10 +248,24 @@ def _parse_raw_data(region_str):
                                                params_str, raw_meta, line))
 
             # reset composite metadata after the composite region ends
-            if '||' not in line and composite_meta:
+            if composite_meta and not _continues_composite(original_line):
                 composite_meta = {}
 
     return region_data
+
+
+def _continues_composite(line):
+    """
+    Whether a line of a composite region is followed by another member
+    (i.e., it carries the "||" marker outside of any text field).
+    """
+    idx0, idx1 = _find_text_delim_idx(line)
+    pos = line.find('||')
+    while pos != -1:
+        if not any(i0 < pos < i1 for i0, i1 in zip(idx0, idx1)):
+            return True
+        pos = line.find('||', pos + 1)
+    return False
 
 
 def _parse_shape_line(shape, line, span):
@@ -278,10 +297,15 @@ def _parse_shape_line(shape, line, span):
 
     # ds9 writes out text regions in this odd (undocumented) format
     if shape == 'text' and full_line.lower().startswith('# text'):
-        idx = line.find(' ')
-        if idx == -1:
-            raise ValueError(f'unable to parse line "{line}"')
-        meta_str = line[idx + 1:]
+        # the parameters end at the closing parenthesis (they may be
+        # separated by blanks), else at the first blank
+        if line.lstrip().startswith('(') and ')' in line:
+            idx = line.find(')') + 1
+        else:
+            idx = line.find(' ')
+            if idx == -1:
+                raise ValueError(f'unable to parse line "{line}"')
+        meta_str = line[idx:]
         shape_params_str = line[:idx]
 
     else:
@@ -540,8 +564,9 @@ def _parse_shape_params(region_data):
     params = [val for val in re.split(r'\s|\,', region_data.shape_params)
               if val]  # split values on space or comma
 
-    if shape in ('ellipse', 'box') and len(params) == 4:
-        # the angle is optional in DS9 and defaults to 0
+    if shape in ('ellipse', 'box') and len(params) >= 4 and len(params) % 2 == 0:
+        # the angle is optional in DS9 (also in the multi-radius form)
+        # and defaults to 0
         params.append('0')
 
     nparams = len(params)
